@@ -150,3 +150,27 @@ plan("C13", "fault_enumeration",
      "Oracle: the client gets an error, no instance holds the account in its wallet store or its cache, no handler call panics, and a fault-free generation under another name then "
      "succeeds with a fully consistent key (C12's oracle); duplicate delivery may alternatively end in a fully consistent success.",
      q, t, real_vs_stub=REAL_W2, crash_is_violation=True)
+
+def all_matrix_layers(runs, budget, mw=16, extra=""):
+    return [dict(runs=runs, budget_s=budget, params="mode=matrix,mw=%d,mW=%d%s" % (k, mw, extra)) for k in range(mw)]
+q, t = tiers(30, 90, 600, 1200)
+q["layers"] = all_matrix_layers(30, 90)
+t["layers"] = all_matrix_layers(600, 1200)
+q["require_complete"] = t["require_complete"] = [("matrix_cases", "matrix_total")]
+q["require_probes"] = t["require_probes"] = ["legit_continuations_ok", "share_ownership_checks", "peer_contribution_replies_checked", "ownership_generations"]
+plan("C16", "exploration",
+     "the table caller identity {a peer, an ordinary client with all permissions, empty name, unknown name, a peer's name in upper case, a peer's name with a suffix} x message "
+     "{prepare, execute, contribute (with a contribution that would verify), commit, abort} x session state at the receiving instance {none, prepared, executed, committed, aborted, "
+     "expired (fake clock)} is enumerated completely (180 cases) through the real receiver handlers of a 3-instance cluster; the remaining runs are seeded fault-free generations with "
+     "drawn (n,t) and id sets. distinct = distinct table case or (n,t,id-class); non-trivial = all. Oracle: a non-peer gets an error and no share, and the legitimate protocol run "
+     "continues from that state to a committed account on every participant; every contribution the transport carries (request and reply) has share = originator's vector evaluated "
+     "at the recipient's id and at no other participant's id.",
+     q, t, real_vs_stub=REAL_W2)
+q, t = tiers(200, 60, 10000, 1200)
+q["require_probes"] = t["require_probes"] = ["life_commit_ok", "life_abort", "life_clock_advances", "life_execute_ok"]
+plan("C17", "exploration",
+     "one case = one seeded sequence of 8-31 events {prepare, execute, commit, abort on a drawn instance for one of 1-3 account names; clock advance: a third of the timeout / exactly "
+     "onto, 1 ns short of, 1 ns past the expiry of a session / well past it} on a 3-instance cluster with generation timeout drawn from {1 ms, 1 s, 70 s, 10 min}, biased towards the "
+     "legitimate order so that committed states are reached; distinct = distinct event sequence with outcomes; non-trivial = all. Oracle: a reference lifecycle per (instance, account) "
+     "fed by observed facts (which contribution exchanges the transport completed), checked in the directions the property states; the instant exactly at the timeout is left undecided.",
+     q, t, real_vs_stub=REAL_W2)
